@@ -489,6 +489,9 @@ func (st *fnState) flowCall(v *ssa.Call, c *ssa.CallCommon) bool {
 			if hasPointers(elemOf(c.Args[0].Type())) {
 				return st.storeInto(st.t(c.Args[0]), st.contentOf(st.t(c.Args[1])))
 			}
+		case "ssa:wrapnilchk":
+			// the nil check of a synthesized pointer-receiver wrapper returns its first argument
+			return st.add(v, st.t(c.Args[0]))
 		}
 		return false
 	}
